@@ -21,37 +21,52 @@ def degenerate(rng):
     yield b'\xc3\x28\r\n'
 
 
-def run(rep):
-    thorough = rep.tier == 'thorough'
-    rng = rep.rng
+def drive(arg):
+    qual, seed, per_seed, thorough = arg
+    import random
+    cls = corpus.resolve(qual)
+    rng = random.Random('%s:%s' % (seed, qual))
     lib = corpus.by_class()
-    per_seed = 250 if thorough else 45
-    classes = [c for c in corpus.concrete_parsables() if lib.get(c)]   # every class with an accepted seed
-    allseeds = [d for ds in lib.values() for d in ds]
+    allseeds = _ALLSEEDS
+    seeds = lib.get(cls, [])
+    inputs = []
+    for sd in seeds:
+        if len(sd) > 3000 and not thorough:
+            continue
+        inputs.append(sd)
+        inputs += mutants(sd, rng, per_seed, others=[rng.choice(allseeds)])
+    inputs += list(degenerate(rng))
+    seen = set()
     events = []
-    driven = 0
-    for cls in classes:
-        seeds = lib.get(cls, [])
-        inputs = []
-        for seed in seeds:
-            if len(seed) > 3000 and not thorough:
-                continue
-            inputs.append(seed)
-            inputs += mutants(seed, rng, per_seed, others=[rng.choice(allseeds)])
-        inputs += list(degenerate(rng))
-        if not seeds:
-            inputs += rng.sample(allseeds, min(len(allseeds), 30 if thorough else 8))
-        seen = set()
-        driven += 1
-        for data in inputs:
-            if data in seen:
-                continue
-            seen.add(data)
-            ev, _ = api.observe(cls, data)
-            ev['head'] = list(data[:64])
-            ev['hex'] = data.hex() if len(data) <= 400 else data[:400].hex() + '...'
-            events.append(ev)
-            rep.case(digest([ev['cls'], list(data)]))
+    for data in inputs:
+        if data in seen:
+            continue
+        seen.add(data)
+        ev, _ = api.observe(cls, data)
+        ev['head'] = []
+        ev['hex'] = data.hex() if len(data) <= 400 else data[:400].hex() + '...'
+        ev['dg'] = digest([ev['cls'], data.hex()])
+        events.append(ev)
+    return events
+
+
+_ALLSEEDS = []
+
+
+def run(rep):
+    from ..par import pmap
+    thorough = rep.tier == 'thorough'
+    lib = corpus.by_class()
+    per_seed = 250 if thorough else 30
+    classes = [c for c in corpus.concrete_parsables() if lib.get(c)]   # every class with an accepted seed
+    _ALLSEEDS[:] = [d for ds in lib.values() for d in ds]
+    args = [(c.__module__ + '.' + c.__qualname__, rep.seed, per_seed, thorough) for c in classes]
+    events = []
+    for evs in pmap(drive, args):
+        events += evs
+    for e in events:
+        rep.case(e['dg'])
+    driven = len(classes)
     rep.rule = ('one case = one (class, byte string) given to parse_immutable, parse_mutable and parse_exact_size: every '
                 'accepted corpus input of the class, %d mutants of each (truncation, trailing bytes, header/length-field '
                 'corruption, bit flips, insert/delete/duplicate/splice, broken UTF-8), and degenerate inputs (empty, single '
